@@ -137,4 +137,4 @@ def run(r):
     r.coverage["distinct_nontrivial"] = len(set(c["src"] for c in cases if len(c["spans"]) >= 3))
     r.coverage["rule"] = ("inputs: random token soup over uiua's glyphs, ASCII primitive names and a fixed list of hard pieces (escapes, combining sequences, CR/CRLF, "
                           "multi-line strings, output comments (unevaluated soup and EVALUATED `##` at line start / end of line, indent 0-3 in modules and multi-line functions, values scalar/list/rank-2/rank-3/boxed), unterminated constructs, subscripts, `?` chains), mutated lines of /repo/tests and /repo/examples, "
-                          "preceded by the 18 former failing inputs of the repaired defect classes (escape + split identifier, combining mark, end-of-line-comment glyph map; also the first tie cases), by 10 fixed inputs (9 with evaluated output comments incl. several-line values on indented lines, 1 for the open finding fmt-eol-comment-ws-ident) and by a fixed regression corpus of 16 huge inputs around the 16-bit limits (9 that the guard must reject with the ordinary too-long error, 5 just inside the guard that must lex cleanly, 2 for the formatter output side: a 65535-character formatted line must be exact, a 65536-character one may only be clamped, never wrapped); every 4th search input (and every evaluated-output-comment input) also goes through the compiler, the language server and the formatter; checked per input: every token / lex error / AST / parse error+diagnostic / compile error+diagnostic / highlight / glyph-map source span against the position recomputed from the byte prefix, token order and coverage, both output-side positions of every glyph-map entry against the formatted text, slicing under catch; non-trivial = at least 3 reported spans")
+                          "preceded by the 22 former failing inputs of the repaired defect classes (escape + split identifier, combining mark, end-of-line-comment glyph map, non-ASCII-whitespace identifier before an end-of-line comment; also the first tie cases), by 9 fixed inputs with evaluated output comments (incl. several-line values on indented lines) and by a fixed regression corpus of 16 huge inputs around the 16-bit limits (9 that the guard must reject with the ordinary too-long error, 5 just inside the guard that must lex cleanly, 2 for the formatter output side: a 65535-character formatted line must be exact, a 65536-character one may only be clamped, never wrapped); every 4th search input (and every evaluated-output-comment input) also goes through the compiler, the language server and the formatter; checked per input: every token / lex error / AST / parse error+diagnostic / compile error+diagnostic / highlight / glyph-map source span against the position recomputed from the byte prefix, token order and coverage, both output-side positions of every glyph-map entry against the formatted text, slicing under catch; non-trivial = at least 3 reported spans")
